@@ -74,7 +74,7 @@ def run_case(case):
     elif variant == "IK_stale":
         kw["server_static_public"] = PublicKey(bytes(_dh.generate_keypair().public.data))
     cfg = Config(**kw)
-    rig = TR.Rig(choices=case.get("choices", ()), config=cfg, server=server)
+    rig = TR.Rig(choices=case.get("choices", ()), config=cfg, server=server, preempt=case.get("preempt"))
     rig.top.passive = bool(case.get("passive"))
     try:
         return _run(case, out, rig, server, cfg, variant, phone)
@@ -286,6 +286,9 @@ def nontrivial(case, out):
 
 
 def shrink_candidates(case):
+    if case.get("preempt") and len(case["preempt"]) > 1:
+        for i in range(len(case["preempt"])):
+            yield dict(case, preempt=case["preempt"][:i] + case["preempt"][i + 1:])
     if case.get("choices"):
         yield dict(case, choices=[])
         yield dict(case, choices=case["choices"][:len(case["choices"]) // 2])
@@ -320,6 +323,9 @@ def case_strategy():
             "corrupt": draw(st.sampled_from([False, False, False, False, True])),
             "choices": draw(st.lists(st.integers(0, 5), min_size=n, max_size=n)),
         }
+        if n == 0 and draw(st.booleans()):
+            # context-bounded schedule: up to three preemption points
+            c["preempt"] = draw(st.lists(st.tuples(st.integers(0, 400), st.integers(0, 3)).map(list), min_size=1, max_size=3))
         return c
     return build()
 
@@ -334,11 +340,24 @@ def _enum_basic():
                "chunks": [3], "coalesced": 0, "after_server": 1, "after_client": 1, "prefix": [], "corrupt": True, "choices": []}
 
 
+def _enum_preemption_sweep(limit):
+    """context bound 1, complete: one preemption at every yield point of the login (either other ready task), with server frames
+    arriving in the same read as the handshake reply"""
+    def factory():
+        for variant in ("IK", "XX"):
+            for k in range(limit):
+                for sel in (0, 1):
+                    yield {"sub": "login", "variant": variant, "phone": "4915112345", "passive": False, "pushname": None, "edge": None,
+                           "chunks": [], "coalesced": 2, "after_server": 0, "after_client": 0, "prefix": [], "corrupt": False,
+                           "choices": [], "preempt": [[k, sel]]}
+    return factory
+
+
 def plan(tier):
     quick = tier == "quick"
     return {
         "shards": 16,
-        "enumerations": [("basic_matrix", _enum_basic)],
+        "enumerations": [("basic_matrix", _enum_basic), ("single_preemption_sweep", _enum_preemption_sweep(260 if quick else 700))],
         "strategies": [("logins", case_strategy(), 60 if quick else 4000)],
         "shrink": "ddmin",
         "budget_s": 150 if quick else 1500,
